@@ -294,6 +294,39 @@ def _csr_with_settable_T():
     return _CSR_T
 
 
+_RHO_MEMO = {}
+
+
+@contextlib.contextmanager
+def memoised_cdp_rho(*mods):
+    """cdp_rho costs ~0.3 s per call (10^6 inner iterations) and is a pure function of (eps, delta): within one
+    worker process the REAL function found in the mechanism's namespace is called once per argument pair and
+    its value reused.  The memo is keyed by the function's source file and mtime, so a scratch copy never
+    sees values of another tree."""
+    import os
+    saved = []
+    for mod in mods:
+        real = getattr(mod, 'cdp_rho', None)
+        if real is None or getattr(real, '_pv_memo', False):
+            continue
+        f = getattr(sys.modules.get(real.__module__), '__file__', '') or ''
+        tag = (f, os.stat(f).st_mtime_ns if f and os.path.exists(f) else 0)
+
+        def wrapper(eps, delta, _real=real, _tag=tag):
+            key = (_tag, float(eps), float(delta))
+            if key not in _RHO_MEMO:
+                _RHO_MEMO[key] = _real(eps, delta)
+            return _RHO_MEMO[key]
+        wrapper._pv_memo = True
+        saved.append((mod, real))
+        mod.cdp_rho = wrapper
+    try:
+        yield
+    finally:
+        for mod, real in saved:
+            mod.cdp_rho = real
+
+
 class _SparseProxy:
     """Stands for the name `sparse` inside mechanisms/adaptive_grid.py."""
 
@@ -409,16 +442,12 @@ def load(mech):
     return load_mechanism(_FILE[mech])
 
 
-@functools.lru_cache(maxsize=64)
-def _real_rho(repo, eps, delta):
-    from ..realcode import load_mechanism
-    return float(load_mechanism('cdp2adp').cdp_rho(eps, delta))
-
-
 def real_rho(eps, delta):
     """cdp_rho of the tree under verification (the budget every zCDP mechanism is held to)."""
-    from .. import env
-    return _real_rho(env.REPO, float(eps), float(delta))
+    from ..realcode import load_mechanism
+    mod = load_mechanism('cdp2adp')
+    with memoised_cdp_rho(mod):
+        return float(mod.cdp_rho(eps, delta))
 
 
 def workload_of(params, d):
@@ -440,12 +469,13 @@ def workload_of(params, d):
 
 
 def boundary_threshold(mech, params, d):
-    """Public integer threshold T = ceil(c * sigma) of the mechanism's support test (MST: 3 sigma on the
+    """Public integer threshold T = ceil(c * sigma) of the mechanism's support test (MST: 3 * per-marginal sigma on the
     one-way marginals, Adaptive Grid: threshold * step1_sigma), from the real cdp_rho; used only to place
     cell counts of 'boundary' datasets on both sides of it."""
     rho = real_rho(params['epsilon'], params['delta'])
     if mech == 'mst':
-        return int(math.ceil(3 * math.sqrt(3 / (2 * rho))))
+        # measure() normalises the d unit weights to 1/sqrt(d): each one-way marginal gets scale sigma*sqrt(d)
+        return int(math.ceil(3 * math.sqrt(3 / (2 * rho)) * math.sqrt(d)))
     if mech == 'adagrid':
         split = params.get('split_strategy') or [1, 1, 1]
         rho1 = rho * split[0] / float(sum(split))
@@ -490,7 +520,10 @@ def run_once(mech, rows, shape, params, seed, iters, recorded=None):
     run = Run()
     rec = Recorder(seed, recorded)
     shim = adagrid_T_shim(mod) if mech == 'adagrid' else contextlib.nullcontext()
-    with capped_iters(iters), shim, rec, contextlib.redirect_stdout(io.StringIO()):
+    holders = [mod]
+    if mech == 'aim':
+        holders.append(sys.modules[mod.Mechanism.__module__])       # AIM prices through Mechanism.__init__
+    with capped_iters(iters), memoised_cdp_rho(*holders), shim, rec, contextlib.redirect_stdout(io.StringIO()):
         try:
             run.output = call_mechanism(mech, mod, data, params, iters)
         except HarnessError:
@@ -722,7 +755,7 @@ def _mk(rng, mech, params, spec, mode, i):
             nbr = dict(op='add', record=[1] + [int(rng.randint(s)) for s in spec['shape'][1:]], at=int(rng.randint(50)))
     else:
         nbr = _neighbour(rng, dataset_rows(spec), spec['shape'], mode)
-    return dict(mech=mech, params=params, data=spec, nbr=nbr, seed=int(rng.randint(1 << 30)), iters=[25, 60][i % 2])
+    return dict(mech=mech, params=params, data=spec, nbr=nbr, seed=int(rng.randint(1 << 30)), iters=[15, 40][i % 2])
 
 
 def gen_cases(tier, seed):
@@ -755,7 +788,7 @@ def gen_cases(tier, seed):
             rounds = int(rng.randint(1, d - 1 + 1)) if d == 4 else int(rng.randint(1, 3))     # < 0.9 d : abort family
             wl = 'pairs'
         else:
-            rounds = [d, d + 1, 2 * d, 8, d][i % 5]
+            rounds = [d, 12, 2 * d, 20, d + 1, 3 * d][i % 6]
             if tier == 'thorough' and i % 40 == 0:
                 rounds = None
         p = dict(epsilon=e, delta=dl, rounds=rounds, workload=wl, max_model_size=[80, 80, 3e-4, 1e-3][i % 4],
